@@ -74,7 +74,18 @@ def _desc(draw):
         if outd.startswith('float') and draw(st.booleans()):
             offset = float(offset)
     delta = draw(st.sampled_from([0, 0, 0, 0, 0, 0, 1, -1, 2, -2, 3, -3]))
-    return dict(n=n, initial=initial, final=final, kind=kind, ind=ind, outd=outd, frac=frac, vals=vals, offset=offset, delta=delta)
+    d = dict(n=n, initial=initial, final=final, kind=kind, ind=ind, outd=outd, frac=frac, vals=vals, offset=offset, delta=delta)
+    # memory layout of the arrays handed over: numpy.cumsum (which the helper is documented to match) takes any strided `out`
+    # and works in place (out=a)
+    d['outlayout'] = draw(st.sampled_from(['contig', 'contig', 'contig', 'strided', 'reversed']))
+    d['inlayout'] = draw(st.sampled_from(['contig', 'contig', 'strided'])) if kind == 'array' else 'contig'
+    if kind == 'array' and ind == outd and delta == 0 and n >= 1 and draw(st.integers(0, 5)) == 0:
+        # in place, in the layouts where every element is written at or after the position it is read from
+        # (any sequential implementation that reads each input element once supports them; numpy.cumsum(a, out=a) is the model)
+        d['alias'] = 'shifted' if (initial and final) else ('same' if not initial else None)
+        if d['alias']:
+            d['outlayout'] = d['inlayout'] = 'contig'
+    return d
 
 
 def strategy(tier):
@@ -82,7 +93,7 @@ def strategy(tier):
 
 
 def nontrivial(d):
-    return d['n'] <= 1 or d['initial'] or not d['final'] or d['ind'] != d['outd'] or d['delta'] != 0
+    return d['n'] <= 1 or d['initial'] or not d['final'] or d['ind'] != d['outd'] or d['delta'] != 0 or bool(d.get('alias')) or d.get('outlayout', 'contig') != 'contig'
 
 
 def classes(d):
@@ -96,6 +107,12 @@ def classes(d):
         c.append('fractional')
     if d.get('special'):
         c.append('special=' + d['special'])
+    if d.get('outlayout', 'contig') != 'contig':
+        c.append('out=' + d['outlayout'])
+    if d.get('inlayout', 'contig') != 'contig':
+        c.append('in=strided')
+    if d.get('alias'):
+        c.append('in-place=' + d['alias'])
     return c
 
 
@@ -114,6 +131,10 @@ def run_case(d):
         arr_copy = list(arr)
     else:
         arr = np.array(vals, dtype=ind)
+        if d.get('inlayout') == 'strided':
+            wide = np.full(2 * n + 1, 77, dtype=ind)
+            wide[0 : 2 * n : 2] = arr
+            arr = wide[0 : 2 * n : 2]
         arr_copy = arr.copy()
     n_out = n - 1 + int(initial) + int(final)
     outlen = n_out + d['delta']
@@ -121,8 +142,45 @@ def run_case(d):
         raise Reject('negative output length')
     sent = SENT_F if outd.kind == 'f' else SENT_I
     M = 8
-    buf = np.full(outlen + 2 * M, sent, dtype=outd)
-    out = buf[M : M + outlen]
+    layout = d.get('outlayout', 'contig')
+    alias = d.get('alias')
+    if alias:
+        if not (d['kind'] == 'array' and ind == outd and d['delta'] == 0 and n >= 1):
+            raise Reject('aliasing needs equal dtypes and a right-length output')
+        if alias == 'same' and not initial:
+            # out is the input itself (final=True) or its first n-1 elements (final=False): element i is written after it was read
+            buf = np.full(n + 2 * M, sent, dtype=outd)
+            buf[M : M + n] = arr
+            arr = buf[M : M + n]
+            out = buf[M : M + outlen]
+        elif alias == 'shifted' and initial and final:
+            # cumsum(b[1:], b, initial=True, final=True): b[i+1] is written after b[1:][i] (the same element) was read
+            buf = np.full(n + 1 + 2 * M, sent, dtype=outd)
+            buf[M + 1 : M + 1 + n] = arr
+            buf[M] = 0
+            arr = buf[M + 1 : M + 1 + n]
+            out = buf[M : M + outlen]
+        else:
+            raise Reject('aliasing layout not defined for these flags')
+        live = np.zeros(len(buf), dtype=bool)
+        live[M : M + outlen] = True
+    elif layout == 'strided':
+        buf = np.full(2 * outlen + 2 * M, sent, dtype=outd)
+        out = buf[M : M + 2 * outlen : 2]
+        live = np.zeros(len(buf), dtype=bool)
+        live[M : M + 2 * outlen : 2] = True
+    elif layout == 'reversed':
+        buf = np.full(outlen + 2 * M, sent, dtype=outd)
+        out = buf[M : M + outlen][::-1]
+        live = np.zeros(len(buf), dtype=bool)
+        live[M : M + outlen] = True
+    else:
+        buf = np.full(outlen + 2 * M, sent, dtype=outd)
+        out = buf[M : M + outlen]
+        live = np.zeros(len(buf), dtype=bool)
+        live[M : M + outlen] = True
+    if len(out) != outlen:
+        raise RuntimeError('harness: output view length')
     offset = d['offset']
 
     tag = 'len0' if n == 0 else 'n>=1'
@@ -135,10 +193,15 @@ def run_case(d):
     except (IndexError, SystemError) as e:
         raise Violation('cumsum-%s-out-of-bounds' % tag, 'n=%d flags=(%s,%s) outlen=%d: %s: %s' % (n, initial, final, outlen, type(e).__name__, e))
 
-    margins_ok = bool(np.all(buf[:M] == sent) and np.all(buf[M + outlen :] == sent))
+    if alias == 'same' and not final:
+        live[M + n - 1] = True  # the last input element, not part of out: must keep its value
+        if buf[M + n - 1] != arr_copy[n - 1]:
+            raise Violation('cumsum-%s-canary' % tag, 'in-place call changed the input element behind the output')
+        live[M + n - 1] = True
+    margins_ok = bool(np.all(buf[~live] == sent))
     if not margins_ok:
-        raise Violation('cumsum-%s-canary' % tag, 'sentinel margin overwritten n=%d flags=(%s,%s) outlen=%d' % (n, initial, final, outlen))
-    if d['kind'] == 'array' and not np.array_equal(arr, arr_copy):
+        raise Violation('cumsum-%s-canary' % tag, 'element outside the output view overwritten n=%d flags=(%s,%s) outlen=%d layout=%s' % (n, initial, final, outlen, layout))
+    if d['kind'] == 'array' and not alias and not np.array_equal(arr, arr_copy):
         raise Violation('cumsum-input-modified', 'input array changed')
 
     if d['delta'] != 0 or n_out < 0:
